@@ -65,6 +65,9 @@ def make_cases(tier, seed, files):
             # assignment over a destination that already holds other content
             ops.append({'o': 'new', 'b': 1, 'bp': bp, 'read': variant != 'block'})
             ops += content_ops(r, vg, P, 1, r.choice([1, 5, 20]), tps if variant != 'fromfile' else 1000)
+        if variant == 'fromfile' and r.random() < 0.4:
+            # the source was already partly consumed through read_generic_*(): the copy must still read like a fresh block
+            ops.append({'o': 'read_some', 'b': 0, 'n': r.choice([1, 2, 3])})
         src_tables_before = len(ops)
         ops.append({'o': 'tables', 'b': 0})
         ops.append({'o': 'copy', 'how': how, 'src': 0, 'dst': 1})
